@@ -856,11 +856,13 @@ impl Prioritize {
                         }
                         Some(Frame::PushPromise(pp)) => {
                             let mut pushed = match stream.store_mut().find_mut(&pp.promised_id()) {
-                                Some(pushed) => pushed,
-                                None => {
+                                Some(pushed) if pushed.is_pending_push => pushed,
+                                _ => {
                                     // The promised stream is gone already (e.g. it was
                                     // failed by a GOAWAY received while the promise was
-                                    // still queued): there is nothing left to announce.
+                                    // still queued) or the promise was cancelled (the
+                                    // peer disabled push): there is nothing left to
+                                    // announce.
                                     tracing::trace!("dropping PUSH_PROMISE of a closed stream");
                                     if !stream.pending_send.is_empty()
                                         || stream.state.is_scheduled_reset()
